@@ -528,7 +528,8 @@ class Gen:
 
     def begin_end_cmd(self, ctx):
         which = self.pick(('begin', 'end'))
-        nm = self.pick(ENV_NAMES + ('equation', 'itemize', 'verbatim'))
+        # (C07.2 documents must stay free of math / verbatim / list openings even after a closer is lost)
+        nm = self.pick(ENV_NAMES if self.p.plain else ENV_NAMES + ('equation', 'itemize', 'verbatim'))
         return Node('cmd', name=which, args=[Arg('{', [Node('text', text=nm)])])
 
     def env(self, ctx, depth):
